@@ -14,7 +14,12 @@ THEOREMS = ["C07_referral_strictly_deeper", "C07_auth_answer_from_universe", "C0
             "C07_empty_cache_consistent", "C07_correct_warm", "C07_correct_warm_real_cache", "C07_warm_cache_laws",
             "C07_example_warm", "C07_sequence", "C07_sequence_outcomes", "C07_example_sequence",
             "C07_correct_alias", "C07_correct_alias_real_cache", "C07_filter_accepts_alias_answer", "C07_alias_sequence",
-            "C07_example_alias"]
+            "C07_example_alias",
+            "C07_correct_modes", "C07_correct_modes_real_cache", "C07_correct_chain_modes", "C07_consistentm_only_v4",
+            "C07_example_modes",
+            "C07_correct_glueless", "C07_correct_glueless_real_cache", "C07_fuel_monotone", "C07_example_glueless",
+            "C07_correct_multizone", "C07_correct_multizone_real_cache", "C07_correct_glueless_multizone",
+            "C07_multizone_weakens", "C07_multizone_log_shorter", "C07_example_multizone"]
 RULE = ("cases: generated consistent universes (root + a chain of 1..5 nested zones, optional provider branch for "
         "out-of-bailiwick nameserver names, optional second branch for cross-zone aliases; 1..3 nameservers per zone, "
         "in-bailiwick / sibling / out-of-bailiwick names, glue present or absent, v4-only / v6-only / dual addresses; alias "
